@@ -19,10 +19,11 @@ package multi
 //@   requires m != nil && forall(i, 0, len(m.loaders), m.loaders[i] != nil)
 //@   modifies ghost NL
 //@   nopanic
-//@   loop 0 invariant -1 <= rangeindex && rangeindex < len(m.loaders) && visits("(Loader).Open", 0) == rangeindex + 1
-//@   callsite (Loader).Open 0 requires [loaders-tried-in-construction-order-with-the-same-path] l == m.loaders[caller.rangeindex + 1] && templatePath == caller.name
-//@   check [answer-comes-from-the-first-loader-that-opens-it] result1 == nil ==> lastret("(Loader).Open", 1) == nil && result0 == lastret("(Loader).Open", 0)
-//@   check [failure-means-every-loader-failed] result1 != nil ==> visits("(Loader).Open", 0) == len(m.loaders)
+//@   loop 0 invariant -1 <= rangeindex && rangeindex < len(m.loaders) && visits("(Loader).Exists", 0) == rangeindex + 1
+//@   callsite (Loader).Exists 0 requires [loaders-asked-in-construction-order-with-the-same-path] l == m.loaders[caller.rangeindex + 1] && templatePath == caller.name
+//@   callsite (Loader).Open 0 requires [only-a-loader-that-has-the-path-is-opened] l == m.loaders[caller.rangeindex + 1] && templatePath == caller.name && lastret("(Loader).Exists", 0)
+//@   check [answer-comes-from-a-loader-that-has-the-path] result1 == nil ==> lastret("(Loader).Exists", 0) && lastret("(Loader).Open", 1) == nil && result0 == lastret("(Loader).Open", 0)
+//@   check [failure-means-every-loader-was-asked] result1 != nil ==> visits("(Loader).Exists", 0) == len(m.loaders)
 
 //@ func (*multi.Multi).AddLoaders
 //@   props C19
